@@ -271,6 +271,10 @@ def check_case(case, ctr):
         bad('tostring', c.tostring(), d.tostring())
     if c.crc32() != d.crc32():
         bad('crc32', c.crc32(), d.crc32())
+    for enc in ('utf-16', 'latin-1', 'utf-32'):
+        ctr['calls'] += 2
+        if c.crc32(encoding=enc) != d.crc32(encoding=enc):
+            bad('crc32-encoding', c.crc32(encoding=enc), d.crc32(encoding=enc))
     return V
 
 
